@@ -227,3 +227,47 @@ def show_ops(ops):
 
 def show_tab(t):
     return "[" + " ".join("%d@%d" % (e["ik"][0], e["ik"][1]) for e in t) + "]"
+
+
+def handle_replay(c):
+    """bin/check Cxx --replay <path>: re-run the recorded failing case only. Returns True when a replay was requested."""
+    if not c.replay:
+        return False
+    rec = json.load(open(c.replay))
+    case = rec.get("case") or {}
+    # a single-case re-run must not replace the evidence of the last full run
+    evp = os.path.join(vlib.EVID, c.prop + ".json")
+    if os.path.exists(evp):
+        import atexit
+        saved = open(evp, "rb").read()
+        atexit.register(lambda: open(evp, "wb").write(saved))
+    mode = case.get("mode")
+    d = fast_scratch("dsreplay1-")
+    if mode == "sklconc-history":
+        import shutil
+        dd = vlib.stage_specs([FAMILY])
+        with open(os.path.join(dd, "trace.ndjson"), "w") as f:
+            for e in case["events"]:
+                f.write(json.dumps(e) + "\n")
+        res = vlib.run_tlc(dd, "SkiplistTrace", "SkiplistTrace.cfg", workers=1, timeout=300, dfs_queue=True)
+        c.add_tlc("replay-trace", res)
+        c.add_cases(1, ["replayed-history", "x"], traces=1)
+        c.sample({"replayed": c.replay, "accepted": bool(res.ok)})
+        if not res.ok and res.violation == "postcondition":
+            c.violation(rec.get("signature", "ds:replay"), {"replayed": c.replay, "detail": "the recorded history is still rejected by SkiplistTrace"}, None)
+        elif not res.ok:
+            raise Inconclusive("replay: TLC failed: %s" % (res.error_trace or res.out[-800:])[:800])
+        return True
+    if mode == "sklconc":
+        raise Inconclusive("replay of a recorder failure: run dsreplay -mode sklconc -seed %s -n %s" % (case.get("seed"), case.get("n")))
+    binp = vlib.go_build("cmd/dsreplay")
+    extra = ["-bloom"] if "bloom" in str(rec.get("detail", {}).get("label", "")) else []
+    again = rerun_one(binp, mode, case["case"], case["case_index"], d, case["seed"], case.get("variants", 1), case.get("thorough", False), extra)
+    if again is None:
+        raise Inconclusive("replay: harness failed")
+    c.add_cases(max(1, again.get("evals", 1)), ["replayed-case", "x"])
+    c.cov["rule"] = "single recorded case re-run (--replay)"
+    c.sample({"replayed": c.replay, "ok": again.get("ok"), "sig": again.get("sig"), "detail": str(again.get("detail"))[:1500]})
+    if not again.get("ok"):
+        c.violation(again.get("sig", "ds:replay"), {"replayed": c.replay, "detail": again.get("detail")}, None)
+    return True
